@@ -21,7 +21,9 @@ Full-strength statements that are FALSE of the current code are proved false on 
   anomaly  a numeric path below a part without children is ignored    part_leaf_ignores_path_witness
 -/
 import GluonModel.Lemmas.Rfc822
+import GluonModel.Lemmas.LitCache
 import GluonModel.Generated.Facts.Rfc822
+import GluonModel.Generated.Facts.LitCache
 
 namespace Gluon.C13
 open Gluon.Rfc822
@@ -438,6 +440,96 @@ theorem literal_framing (name d rest : Bytes) (tag : Int) :
     renderRFC822 name d = name ++ [32] ++ frame d :=
   ⟨unframe_frame d rest, ⟨_, rfl⟩, rfl⟩
 
+/-! ### storage states: the cache file may be gone, FETCH answers the same bytes -/
+
+open Gluon.LitCache in
+/-- `getLiteral_stable`: whatever a successful `getLiteral` returned — the cache file's content, or, when the
+    file was gone, the connector's copy with the id line spliced in and written back — the next read of that
+    message returns the same bytes and changes nothing any more.  Every FETCH item and SEARCH key is a function
+    of these bytes, so two consecutive FETCHes of one message agree, and both agree with the FETCH that
+    restored the file. -/
+theorem getLiteral_stable {env : Env} {st st' : St} {id : Nat} {b : Bytes}
+    (h : getLiteral env st id = (.ok b, st')) :
+    getLiteral env st' id = (.ok b, st') := by
+  rcases getLiteral_ok_cases h with ⟨hs, hst⟩ | ⟨_, _, _, _, _, _, _, hst⟩
+  · rw [hst]; exact getLiteral_hit env st id b hs
+  · rw [hst]; exact getLiteral_hit env _ id b (lookup_put_self st.store id b)
+
+open Gluon.LitCache in
+/-- A message was created from `lit` (its cache file holds `SetHeaderValue lit key id = out`, the connector keeps
+    `lit`).  Whether the file is still there or has disappeared, `getLiteral` returns `out` — the appended bytes
+    with exactly the id line added (`splice_exact`), of the length RFC822.SIZE was recorded with
+    (`size_is_length`) — and afterwards the cache file holds `out` again.  Named hypotheses: the message is not a
+    "recovered" one (for those the connector is never asked) and the cache file can be written. -/
+theorem getLiteral_restores_created (env : Env) (st : St) (id : Nat) (lit out : Bytes) (size : Nat)
+    (hcreate : setHeaderValue lit env.key (env.idText id) = .ok (out, size))
+    (hremote : st.remote.lookup id = some lit)
+    (NotRecovered : env.recovered id = false) (SetSucceeds : env.setOk id = true)
+    (hstore : st.store.lookup id = some out ∨ st.store.lookup id = none) :
+    ∃ st', getLiteral env st id = (.ok out, st') ∧ st'.store.lookup id = some out ∧ st'.remote = st.remote ∧
+      size = out.length := by
+  have hsz := size_is_length hcreate
+  rcases hstore with hs | hs
+  · exact ⟨st, getLiteral_hit env st id out hs, hs, rfl, hsz⟩
+  · refine ⟨{ st with store := put st.store id out }, ?_, lookup_put_self st.store id out, rfl, hsz⟩
+    simp [getLiteral, hs, NotRecovered, hremote, hcreate, SetSucceeds]
+
+open Gluon.LitCache in
+/-- The life of one message through the storage states: created; read; the file removed behind the server's
+    back; read (this one restores); read again.  All three reads return the same bytes `b`, and `b` is the
+    created literal with the id line. -/
+theorem created_dropped_restored_agree (env : Env) (st st1 : St) (id : Nat) (lit : Bytes)
+    (hc : create env st id lit = some st1)
+    (NotRecovered : env.recovered id = false) (SetSucceeds : env.setOk id = true) :
+    ∃ b st2, setHeaderValue lit env.key (env.idText id) = .ok (b, b.length) ∧
+      getLiteral env st1 id = (.ok b, st1) ∧
+      getLiteral env (dropFile st1 id) id = (.ok b, st2) ∧
+      getLiteral env st2 id = (.ok b, st2) := by
+  unfold create at hc
+  split at hc
+  · simp at hc
+  next out size hset =>
+    simp only [Option.some.injEq] at hc
+    subst hc
+    have hsz := size_is_length hset
+    subst hsz
+    have h1 : getLiteral env ⟨put st.store id out, put st.remote id lit⟩ id = (.ok out, _) :=
+      getLiteral_hit env _ id out (lookup_put_self _ _ _)
+    obtain ⟨st2, h2, _, _, _⟩ := getLiteral_restores_created env
+      (dropFile ⟨put st.store id out, put st.remote id lit⟩ id) id lit out out.length hset
+      (by simp [dropFile, lookup_put_self]) NotRecovered SetSucceeds
+      (Or.inr (by simp [dropFile, lookup_erase_self]))
+    exact ⟨out, st2, hset, h1, h2, getLiteral_stable h2⟩
+
+open Gluon.LitCache in
+/-- Reading one message never touches the cache file of another one, nor the connector. -/
+theorem getLiteral_frame {env : Env} {st st' : St} {id : Nat} {r : Except GErr Bytes}
+    (h : getLiteral env st id = (r, st')) (j : Nat) (hj : j ≠ id) :
+    st'.store.lookup j = st.store.lookup j ∧ st'.remote = st.remote := by
+  unfold getLiteral at h
+  split at h
+  · simp only [Prod.mk.injEq] at h; rw [← h.2]; exact ⟨rfl, rfl⟩
+  · split at h
+    · simp only [Prod.mk.injEq] at h; rw [← h.2]; exact ⟨rfl, rfl⟩
+    · split at h
+      · simp only [Prod.mk.injEq] at h; rw [← h.2]; exact ⟨rfl, rfl⟩
+      · split at h
+        · simp only [Prod.mk.injEq] at h; rw [← h.2]; exact ⟨rfl, rfl⟩
+        · split at h
+          · simp only [Prod.mk.injEq] at h; rw [← h.2]; exact ⟨lookup_put_ne _ _ _ _ hj, rfl⟩
+          · simp only [Prod.mk.injEq] at h; rw [← h.2]; exact ⟨rfl, rfl⟩
+
+/-- Regenerated from the source: exactly the function(s) of internal/state that download a message from the
+    connector (`GetMessageLiteral`) write to the cache, each such write passes a variable whose last assignment
+    in front of the write is the result of `rfc822.SetHeaderValue*` with the key `ids.InternalIDKey` — the bytes
+    WITH the id line go back into the cache, as in Model/LitCache.lean `getLiteral` (`put st.store id
+    literalWithHeader`), which is what `getLiteral_stable` rests on. -/
+theorem restore_writes_spliced_literal :
+    Facts.literalDownloaders ≠ [] ∧ Facts.restoreWrites ≠ [] ∧
+    Facts.restoreWrites.all (fun w => w.spliced && w.key == "ids.InternalIDKey" &&
+      Facts.literalDownloaders.contains w.func) = true ∧
+    Facts.literalDownloaders.all (fun f => Facts.restoreWrites.any (fun w => w.func == f)) = true := by decide
+
 /-! ### non-vacuity: the hypotheses are satisfiable by non-trivial inputs -/
 
 /-- splice: `A: b CRLF CRLF body` gets the line in front of `A`; a message without any header field
@@ -516,5 +608,16 @@ example : withPartial [97, 98, 99, 100] 4294967295 4294967295 = some [] ∧
 /-- framing: `{3}\r\nabc` -/
 example : frame [97, 98, 99] = [123, 51, 125, 13, 10, 97, 98, 99] ∧
     Spec.unframe ([123, 51, 125, 13, 10, 97, 98, 99] ++ [41]) = some ([97, 98, 99], [41]) := by decide
+
+/-- storage states: `A: b CRLF CRLF body` created as message 7 (id text `7`), the file dropped, read twice:
+    both reads give the literal with the id line; the connector still holds the bare literal -/
+example :
+    let env : LitCache.Env := ⟨[88, 45, 80, 109, 45, 71, 108, 117, 111, 110, 45, 73, 100], fun _ => [55], fun _ => false, fun _ => true⟩
+    let lit : Bytes := [65, 58, 32, 98, 13, 10, 13, 10, 98, 111, 100, 121]
+    let out : Bytes := [88, 45, 80, 109, 45, 71, 108, 117, 111, 110, 45, 73, 100, 58, 32, 55, 13, 10] ++ lit
+    (LitCache.create env ⟨[], []⟩ 7 lit).map (fun s => (s.store, s.remote)) = some ([(7, out)], [(7, lit)]) ∧
+    (LitCache.getLiteral env ⟨[], [(7, lit)]⟩ 7).1 = .ok out ∧
+    (LitCache.getLiteral env (LitCache.getLiteral env ⟨[], [(7, lit)]⟩ 7).2 7).1 = .ok out ∧
+    (LitCache.getLiteral env ⟨[], [(7, lit)]⟩ 8).1 = .error .download := by decide
 
 end Gluon.C13
